@@ -369,11 +369,9 @@ def close_loop_facts(run, f):
                     bad = "a live deed is popped and dropped without dog.close()"
                 if app or moved:
                     bad = "deed re-appended in the close loop"
-            elif oc == BREAK and marker and marker_sorted_first(f, loop):
-                # the deeds were ordered by position in self.doers with the marker keyed below every position: it is the leftmost
-                # element, popped last from the right, so leaving the loop at the marker leaves nothing behind
-                bad = None
             elif oc == BREAK or oc == RETURN:
+                # also at the marker: a doer that removed itself keeps its deed but is no longer in .doers, so it ties with the marker in
+                # the doers-order sort and is popped after it
                 bad = "close loop left early (%s) with deeds possibly remaining" % oc[0]
             elif is_raise(oc) and oc[1] == "StopIteration":
                 bad = "StopIteration escapes the close loop"
@@ -703,8 +701,8 @@ def enter_facts(run, cls):
         if isinstance(n, ast.Call) and isinstance(n.func, ast.Name):
             kws = {k.arg: k.value for k in n.keywords if k.arg}
             if "tymth" in kws:
-                tymth.add(unparse(kws["tymth"]))
-                tock.add(unparse(kws.get("tock")) if kws.get("tock") is not None else None)
+                tymth.add(keytext(f, kws["tymth"]))
+                tock.add(keytext(f, kws.get("tock")) if kws.get("tock") is not None else None)
                 csite = run.site(f, n)
     facts["enter.tymth-injected"] = (tuple(sorted(tymth)), csite)
     facts["enter.tock-injected"] = (tuple(sorted(str(t) for t in tock)), csite)
@@ -1301,10 +1299,7 @@ def scheduler_fact_bundle(run, cls):
         fs_ = conservation_facts(run, f, what)
         out["conserve.%s" % what] = (tuple(sorted((x.name, x.ok) for x in fs_)), run.site(f))
     f = ix.method(cls, "exit")
-    # siblings are compared on what the loop does to each kind of deed, not on whether the (provably last) marker is left by
-    # `continue` or `break`
-    out["close-loop"] = (tuple(sorted({(x.name.replace("|break", "|continue") if x.ok and "marker=True" in x.name else x.name, x.ok)
-                                       for x in close_loop_facts(run, f)})), run.site(f))
+    out["close-loop"] = (tuple(sorted((x.name, x.ok) for x in close_loop_facts(run, f))), run.site(f))
     f = ix.method(cls, "enter")
     out["enter-safety"] = (tuple(sorted((x.name, x.ok) for x in enter_safety_facts(run, f))), run.site(f))
     hz, _ = rotation_hazard_facts(run, cls)
@@ -1462,27 +1457,6 @@ def _sorted_by_doers_index(f, maps):
                     if used & maps and third:
                         hits.append((n, n.targets[0].id, dotted(c.args[0])))
     return hits
-
-
-def marker_sorted_first(f, loop):
-    """exit() ordered the deque by position in self.doers before `loop`, with unknown doers (the marker's None) keyed by a negative
-    default, and pops from the right: the marker is the last element popped."""
-    maps = _doers_index_maps(f)
-    popped = {l[2] for l in deque_loops(f) if l[0] is loop}
-    for node, tgt, src in _sorted_by_doers_index(f, maps):
-        if node.lineno >= loop.lineno:
-            continue
-        wrote_back = any(isinstance(c, ast.Call) and method_call(c) == (src, "extend") and c.args and dotted(c.args[0]) == tgt and c.lineno < loop.lineno
-                         for c in walk_local(f.node)) and any(isinstance(c, ast.Call) and method_call(c) == (src, "clear") and c.lineno < loop.lineno
-                                                              for c in walk_local(f.node))
-        if not ((wrote_back and src in popped) or tgt in popped):
-            continue
-        for c in ast.walk(node.value):
-            if isinstance(c, ast.Call) and isinstance(c.func, ast.Attribute) and c.func.attr == "get" and dotted(c.func.value) in maps and len(c.args) == 2:
-                d = c.args[1]
-                if isinstance(d, ast.UnaryOp) and isinstance(d.op, ast.USub) and isinstance(d.operand, ast.Constant) and d.operand.value > 0:
-                    return True
-    return False
 
 
 def close_order_facts(run, cls):
